@@ -1,5 +1,5 @@
 (* C08 — a failing Apply returns nothing and says why (v5). *)
-From JP Require Import Bytes Json Text Strings Den Pointer Rfc6902 ImplV5 Domain ApplyFacts ImplFacts ApplySim.
+From JP Require Import Bytes Json Text Strings Den Pointer Rfc6902 ImplV5 Domain ApplyFacts ImplFacts Depth ApplySim.
 
 (* operations after the first failing one have no effect on the outcome: the result is the first
    failing operation's error, at its index, whatever follows *)
@@ -34,17 +34,20 @@ Proof. exact step_copy_limit. Qed.
 Print Assumptions C08_copy_limit_only_by_copy.
 
 (* the cause, against the reference: in the stated domain Apply fails at the reference's first
-   failing operation, and the error class corresponds to the reference's cause of failure *)
+   failing operation, and the error class corresponds to the reference's cause of failure.
+   copies_fit: no copy the reference run reaches has a source nested deeper than deepCopy accepts
+   (otherwise the patch fails at that copy, with deepCopy's error: C01_copy_too_deep_rejects_patch) *)
 Theorem C08_cause : forall o indent p doc t i cz,
   plain_opts o -> parse doc = Some t -> root_container t = true -> tnodup t = true ->
-  Forall op_dom p -> rfc_apply (dia o) (den t) (map den_op p) = Failed i cz ->
+  Forall op_dom p -> copies_fit (dia o) (den t) (map den_op p) = true ->
+  rfc_apply (dia o) (den t) (map den_op p) = Failed i cz ->
   exists e, api_apply o indent p doc = RErr (Some i) e /\
     (e = ETestFailed <-> cz = FTest) /\
     (cz = FMissingMember \/ cz = FUnreachable -> e = EMissing) /\
     is_copy_limit e = false.
 Proof.
-  intros o indent p doc t i cz PO P RC T D R.
-  pose proof (api_apply_sim o indent p doc t PO P RC T D) as S. rewrite R in S.
+  intros o indent p doc t i cz PO P RC T D F R.
+  pose proof (api_apply_sim o indent p doc t PO P RC T D F) as S. rewrite R in S.
   destruct S as [e [S1 S2]]. exists e. split; [exact S1|].
   split; [apply cause_rel_test_iff; exact S2|]. split; [apply cause_rel_missing; exact S2 | eapply cause_rel_not_limit; eauto].
 Qed.
